@@ -262,8 +262,15 @@ def finish(pid, tier, seed, level, result, rule, wall_s, assumptions, extra_cove
     with open(os.path.join(EVIDENCE_DIR, f"{pid}.json"), "w") as fh:
         json.dump(evidence, fh, indent=1, sort_keys=False)
 
+    shown = 0
     for ln in lines:
+        if ln.startswith("VIOLATION"):
+            shown += 1
+            if shown > 15:
+                continue
         print(ln)
+    if shown > 15:
+        print(f"... {shown - 15} more VIOLATION keys (see evidence/{pid}.json unlisted_violation_keys and replays/)")
     if unlisted:
         verdict, code = "VIOLATED", EXIT_VIOLATION
     elif result.inconclusive:
